@@ -8,6 +8,8 @@ import (
 	"strconv"
 	"strings"
 	"time"
+
+	"verif/symgo"
 )
 
 // c05Source renders one .basm source of the family: one CP, a romtext section with labels on their own
@@ -139,9 +141,12 @@ func C05(tier string) int {
 	defer os.RemoveAll(work)
 	var cfgs []Config
 	rejected := 0
+	var rejections []string
 	for i := 0; i < n && len(errs) == 0; i++ {
-		p := c05Params{seed: Seed()*100000 + i, rsize: []int{8, 16}[i%2], nregs: 2 + i%3, nin: i % 3, nout: 1 + (i/3)%2,
-			nlines: 6 + (i*5)%9, nmacros: (i / 2) % 3, entryLater: i%6 == 5, doubleMacro: i%12 == 4}
+		pr := rand.New(rand.NewSource(int64(Seed()*7919 + i)))
+		p := c05Params{seed: Seed()*100000 + i, rsize: []int{8, 16}[pr.Intn(2)], nregs: 2 + pr.Intn(3), nin: pr.Intn(3), nout: 1 + pr.Intn(2),
+			nlines: 6 + pr.Intn(9), nmacros: pr.Intn(3), entryLater: i%6 == 5}
+		p.doubleMacro = p.nmacros > 0 && i%6 == 2
 		text := c05Source(p)
 		f := filepath.Join(work, fmt.Sprintf("s%d.basm", i))
 		os.WriteFile(f, []byte(text), 0o644)
@@ -152,8 +157,13 @@ func C05(tier string) int {
 			errs = append(errs, name+": "+err.Error())
 			continue
 		}
-		if strings.Contains(out, "BASM-ERROR") {
+		if k := strings.Index(out, "BASM-ERROR"); k >= 0 {
 			rejected++
+			msg := out[k:]
+			if j := strings.IndexByte(msg, '\n'); j >= 0 {
+				msg = msg[:j]
+			}
+			rejections = append(rejections, fmt.Sprintf("#%d: %s", i, msg))
 			continue
 		}
 		var cps []string
@@ -177,7 +187,7 @@ func C05(tier string) int {
 			}
 		}
 		T := 2*p.nlines + 6
-		cfgs = append(cfgs, Config{Name: name, Func: "zzC05",
+		cfgs = append(cfgs, Config{Name: name, Func: "zzC05", Setup: func(in *symgo.Interp) { in.MaxUnwind = 400 },
 			Args: []Arg{I(p.rsize), S(strings.Join(cps, ";")), S(inLine), S(outLine), S(linkLine), S(text), I(T)}})
 	}
 	if rejected*2 > n {
@@ -195,7 +205,7 @@ func C05(tier string) int {
 			"environment: external inputs constant and valid from tick 0, outputs acknowledged at once; horizon 2*lines+6 ticks from reset (registers zero)",
 			"sources the front-end rejects with an error are counted, not failed (a well-formed source that is refused does not mean something else); data sections, ramtext, templates, fragments (C06), several CPs, shared objects and call/ret are outside",
 		},
-		Bounds: map[string]interface{}{"sources": n, "rejected_by_the_front_end": rejected, "ticks": "2*lines+6", "register_sizes": []int{8, 16}},
+		Bounds: map[string]interface{}{"sources": n, "rejected_by_the_front_end": rejected, "rejections": rejections, "ticks": "2*lines+6", "register_sizes": []int{8, 16}},
 		Rule:   "one configuration per accepted source; obligations: per tick and external output the equality with the source interpretation, at the horizon every register; inputs are solver variables",
 	}
 	sp.Extra = func(cov map[string]interface{}, outs []Outcome) {
